@@ -20,6 +20,7 @@ import (
 	"reflect"
 	"sort"
 	"strings"
+	"sync"
 	"time"
 
 	"github.com/notaryproject/notation-core-go/signature"
@@ -394,6 +395,7 @@ func main() {
 			r.Event("repeated-successful-signing")
 		}
 	}, r.PanicViolation("notation.SignOCI"))
+	overlappingCalls(r, gs)
 	r.RequireAtLeast("successful-calls", int64(n/2))
 	r.RequireAtLeast("must-refuse-calls", int64(n/4))
 	r.RequireAtLeast("repeated-successful-signing", int64(n/10))
@@ -439,4 +441,65 @@ func compareIndex(before, after string, artifact digest.Digest, success bool) st
 		return fmt.Sprintf("index.json gained %d other entries (success=%v)", ao-bo, success)
 	}
 	return ""
+}
+
+// overlappingCalls: the statement quantifies over consecutive calls; a caller that signs one artifact several times
+// (several keys, several metadata sets) does so from goroutines as readily as in a loop. Each trial signs one artifact
+// in a FRESH on-disk layout (no signature, no notation config blob yet) from G goroutines released together: every call
+// is a valid call, so every one must succeed and afterwards the artifact must carry exactly G signatures.
+func overlappingCalls(r *lib.Run, gs notation.Signer) {
+	ctx := context.Background()
+	T, G := r.N(240, 2000), 12
+	lib.Parallel(T, 4, func(t int) {
+		layout := lib.TempDir("c11o")
+		defer os.RemoveAll(layout)
+		store, err := oci.New(layout)
+		if err != nil {
+			panic(err)
+		}
+		// (the artifact's own config is NOT the two bytes "{}": those are the notation config blob, which must be absent)
+		cfg, _ := oras.PushBytes(ctx, store, ocispec.MediaTypeImageConfig, []byte(`{"architecture":"none"}`))
+		mb := []byte(fmt.Sprintf(`{"schemaVersion":2,"mediaType":"application/vnd.oci.image.manifest.v1+json","config":{"mediaType":%q,"digest":%q,"size":%d},"layers":[],"annotations":{"t":"%d"}}`, cfg.MediaType, cfg.Digest, cfg.Size, t))
+		artifact := ocispec.Descriptor{MediaType: ocispec.MediaTypeImageManifest, Digest: digest.FromBytes(mb), Size: int64(len(mb))}
+		if err := store.Push(ctx, artifact, bytes.NewReader(mb)); err != nil {
+			panic(err)
+		}
+		if err := store.Tag(ctx, artifact, "v1"); err != nil {
+			panic(err)
+		}
+		repo, err := registry.NewOCIRepository(layout, registry.RepositoryOptions{})
+		if err != nil {
+			panic(err)
+		}
+		start := make(chan struct{})
+		errs := make([]error, G)
+		var wg sync.WaitGroup
+		for g := 0; g < G; g++ {
+			wg.Add(1)
+			go func(g int) {
+				defer wg.Done()
+				<-start
+				_, _, errs[g] = notation.SignOCI(ctx, gs, repo, notation.SignOptions{SignerSignOptions: notation.SignerSignOptions{SignatureMediaType: lib.Formats[g%2]},
+					ArtifactReference: []string{"v1", artifact.Digest.String()}[g%2], UserMetadata: map[string]string{"signer": fmt.Sprint(g)}})
+			}(g)
+		}
+		close(start)
+		wg.Wait()
+		r.Eval(fmt.Sprintf("overlap/%d", t))
+		ok := 0
+		for g, e := range errs {
+			if e != nil {
+				r.Violation(map[string]string{"kind": "overlapping-call-failed"}, fmt.Sprintf("trial %d: valid SignOCI call %d of %d released together on a fresh layout failed: %v", t, g, G, e), nil)
+			} else {
+				ok++
+			}
+		}
+		count := 0
+		if err := repo.ListSignatures(ctx, artifact, func(ds []ocispec.Descriptor) error { count += len(ds); return nil }); err != nil {
+			r.Violation(map[string]string{"kind": "overlapping-listing"}, fmt.Sprintf("trial %d: listing after %d overlapping calls failed: %v", t, G, err), nil)
+		} else if count != ok {
+			r.Violation(map[string]string{"kind": "overlapping-attached"}, fmt.Sprintf("trial %d: %d calls succeeded, the artifact carries %d signatures", t, ok, count), nil)
+		}
+		r.Event("overlapping-trials")
+	}, r.PanicViolation("overlapping SignOCI"))
 }
